@@ -247,6 +247,13 @@ def gen_rows(rng, n, m):
     if n > 2 or (n == 2 and rng.random() < 0.4):
         for _ in range(rng.choice([0, 1, 1, 2]) if n > 2 else 1):
             rows[rng.choice([0, n // 2, n - 1, rng.randrange(n)])] = [0.0] * m
+    if m > 1 and rng.random() < 0.15:
+        # a row whose non-zero values cancel exactly (sum 0, not empty)
+        v = rng.choice([2.5, 1e-7, 3.0, 1e19, 0.1])
+        r = [0.0] * m
+        a, b = rng.sample(range(m), 2)
+        r[a], r[b] = v, -v
+        rows[rng.randrange(n)] = r
     if m > 1 and rng.random() < 0.3:
         j = rng.choice([0, m - 1, rng.randrange(m)])
         for r in rows:
@@ -343,6 +350,92 @@ def large_table(rng, n, m, density, kind):
                     arr[i, j] = gen_float(rng) or 1.0
     omd = [{"taxonomy": ["k__A", "p__%d" % (i % 7)]} for i in range(n)] if kind != "int" else None
     return Table(arr, ["O%d" % i for i in range(n)], ["S\"%d" % j for j in range(m)], omd, None, type="OTU table")
+
+
+INPLACE_EDITS = ["del_md_subset_obs", "del_md_subset_samp", "del_md_subset_whole", "del_md_all_obs", "del_md_all_whole",
+                 "add_md_existing_obs", "add_md_existing_samp", "mutate_dict_obs", "mutate_dict_samp", "mutate_nested_obs",
+                 "replace_value_samp", "transform_inplace", "filter_inplace", "update_ids_inplace", "set_type_id"]
+
+
+def _axis_keys(t, axis):
+    md = t.metadata(axis=axis)
+    if md is None:
+        return []
+    keys = []
+    for m in md:
+        for k in m:
+            if k not in keys:
+                keys.append(k)
+    return keys
+
+
+def apply_inplace_edit(rng, t, edit):
+    """edit the SAME table object in place (write -> edit -> write-again histories); returns False if not applicable"""
+    if edit.startswith("del_md_subset"):
+        axis = {"obs": "observation", "samp": "sample", "whole": "whole"}[edit.rsplit("_", 1)[1]]
+        keys = _axis_keys(t, "observation") if axis != "sample" else []
+        keys += [k for k in (_axis_keys(t, "sample") if axis != "observation" else []) if k not in keys]
+        if len(keys) < 1:
+            return False
+        k = max(1, len(keys) // 2)
+        t.del_metadata(keys=rng.sample(keys, k), axis=axis)
+        return True
+    if edit == "del_md_all_obs":
+        if t.metadata(axis="observation") is None:
+            return False
+        t.del_metadata(axis="observation")
+        return True
+    if edit == "del_md_all_whole":
+        if t.metadata(axis="observation") is None and t.metadata(axis="sample") is None:
+            return False
+        t.del_metadata()
+        return True
+    if edit.startswith("add_md_existing"):
+        axis = "observation" if edit.endswith("obs") else "sample"
+        ids = list(t.ids(axis=axis))
+        t.add_metadata({i: {"added\"key": [k, "x", None], "n": k + 0.5} for k, i in enumerate(ids[: max(1, len(ids) // 2)])},
+                       axis=axis)
+        return True
+    if edit.startswith("mutate_dict") or edit in ("mutate_nested_obs", "replace_value_samp"):
+        axis = "observation" if edit.endswith("obs") else "sample"
+        if t.metadata(axis=axis) is None:
+            return False
+        ids = list(t.ids(axis=axis))
+        i = rng.choice(ids)
+        if edit.startswith("mutate_dict"):
+            if rng.random() < 0.5:
+                t.metadata(i, axis)["confidence"] = rng.choice([0.99, 1e-7, None, "q\"q", [1, [2]]])
+            else:
+                t.metadata(axis=axis)[ids.index(i)]["mut\\key"] = {"v": [1.5, None]}
+            return True
+        m = t.metadata(i, axis)
+        if edit == "mutate_nested_obs":
+            for k, v in m.items():
+                if isinstance(v, list):
+                    v.append("appended")
+                    return True
+            return False
+        for k in list(m):
+            m[k] = ["replaced", 7]
+            return True
+        return False
+    if edit == "transform_inplace":
+        t.transform(lambda v, i, m: v * 0.5, inplace=True)
+        return True
+    if edit == "filter_inplace":
+        if len(t.ids()) < 2:
+            return False
+        t.filter(list(t.ids())[1:], inplace=True)
+        return True
+    if edit == "update_ids_inplace":
+        axis = rng.choice(["observation", "sample"])
+        t.update_ids({i: str(i) + "_r\"" for i in t.ids(axis=axis)}, axis=axis, inplace=True)
+        return True
+    if edit == "set_type_id":
+        t.type = "Taxon table" if t.type != "Taxon table" else None
+        t.table_id = "changed\\id"
+        return True
+    raise ValueError(edit)
 
 
 # ----------------------------------------------------------------------------- one case
@@ -453,6 +546,17 @@ def build_fixed(name):
         return Table(np.array([[1.0, 0], [0, 3.0]]), ["a", "b"], ["x", "y"], [{"k": 1}, None], [{}, {"q": "r"}]), "g", d0
     if name == "md-np-bool":
         return Table(np.array([[1.0]]), ["a"], ["x"], [{"k": np.bool_(True)}]), "g", d0
+    if name == "cancelling-rows":
+        vals = [[2.5, -2.5, 0.0, 0.0], [1e-7, 0.0, 0.0, -1e-7], [0.0, 0.0, 0.0, 0.0], [3.0, -1.0, -2.0, 0.0], [1.0, 1.0, 0.0, 0.0]]
+        return Table(np.array(vals), list("abcde"), list("wxyz")), "g", d0
+    if name == "aware-date":
+        tz = datetime.timezone(datetime.timedelta(hours=5, minutes=30))
+        return (Table(np.array([[1.0, 2.0]]), ["a"], ["x", "y"]), "g",
+                datetime.datetime(2024, 5, 6, 7, 8, 9, 123456, tz))
+    if name == "whole-numbers-beyond-int64":
+        return Table(np.array([[1e19, 1.0], [2.0 ** 63, -1e25], [1e300, 3.0]]), list("abc"), ["x", "y"]), "g", d0
+    if name == "id-trailing-newline":
+        return Table(np.array([[1.0, 2.0], [3.0, 4.0]]), ["abc\n", "GG_OTU-1.5"], ["s1\n", "\ns2"]), "g", d0
     if name == "non-bmp-ids":
         return Table(np.array([[1.0, 2.5]]), ["\U0001F600\U0010FFFF"], ["s ", "\x7f\x01"], type="\U00010000"), "\U0001F600", d0
     raise ValueError(name)
@@ -460,7 +564,8 @@ def build_fixed(name):
 
 FIXED = ["repaired-9c6706ed-header-strings", "repaired-f3626f61-value-precision", "repaired-e8ba4fdc-all-zero-table",
          "all-zero-1x1", "empty-0x0", "middle-zero-row", "first-last-zero-rows", "extreme-values", "metadata-kinds",
-         "metadata-partial", "non-bmp-ids", "md-np-bool"]
+         "metadata-partial", "non-bmp-ids", "md-np-bool", "cancelling-rows", "aware-date", "whole-numbers-beyond-int64",
+         "id-trailing-newline"]
 
 
 def run(ctx):
@@ -469,7 +574,10 @@ def run(ctx):
                 "1e-7/0.1234567891/5e-324/1.797e308/random bit patterns; IDs, metadata keys/values, table id, type and "
                 "generated-by over arbitrary Unicode scalar values incl. quotes, backslashes, controls, non-BMP; metadata of "
                 "every JSON kind incl. nesting and numpy scalars/arrays; every core.build route x prior operations; a stream of "
-                "large tables (120x80 .. 220x110, data block 60-400 KiB) through both writer paths; "
+                "large tables (120x80 .. 220x110, data block 60-400 KiB) through both writer paths; write -> in-place edit "
+                "(del_metadata subset/all, add_metadata, direct mutation of a metadata mapping or a nested list, in-place "
+                "transform/filter/update_ids, type/id assignment) -> write-again histories on one table object, the "
+                "second document judged against the table's current content; "
                 "non-trivial = at least two cells or one non-zero value; distinct = distinct (table, generated_by, date)")
     ctx.trusted = ["the harness tokenizer (regex lexer; string literals decoded by json.loads, float literals by float()); "
                    "cross-checked per case by Lean's own Json.parse of the raw characters",
@@ -490,6 +598,25 @@ def run(ctx):
             t = core.build(spec, route)
             run_case(ctx, t, "g", datetime.datetime(2020, 1, 2), tags=("route", route), label="route:" + route)
             ctx.count("route=" + route)
+    # write -> in-place edit -> write again on ONE table object; the second document is judged against the
+    # table's CURRENT content (anything a writer remembers from the first call shows here)
+    hist_spec = {"obs": ["o1", "o2", "o3"], "samp": ["s1", "s2"], "rows": [[1.0, 0.0], [0.0, 2.5], [3.0, 4.0]],
+                 "omd": [{"taxonomy": ["k__A", "p__x"], "conf": 0.5, "n\"k": "a"}, {"taxonomy": ["k__B"], "conf": 0.25, "n\"k": "b"},
+                         {"taxonomy": ["k__C", "p__z"], "conf": 1.0, "n\"k": "c"}],
+                 "smd": [{"barcode": "ATGC", "env": "A"}, {"barcode": "GGTT", "env": "B"}], "type": "OTU table"}
+    for edit in INPLACE_EDITS:
+        for first in ("string-and-direct",):
+            t = core.build(hist_spec, "dense")
+            run_case(ctx, t, "g", datetime.datetime(2020, 1, 2), tags=("history", "first"), label="history:first")
+            if apply_inplace_edit(rng, t, edit):
+                run_case(ctx, t, "g", datetime.datetime(2020, 1, 2), tags=("history", edit), label="history:" + edit)
+                ctx.count("history=" + edit)
+                # and once more after a second, different edit
+                e2 = "mutate_dict_samp" if edit != "mutate_dict_samp" else "del_md_subset_obs"
+                if apply_inplace_edit(rng, t, e2):
+                    run_case(ctx, t, "g2", datetime.datetime(2020, 1, 3), tags=("history", edit, e2),
+                             label="history:%s+%s" % (edit, e2))
+                    ctx.count("history=" + e2)
     # large tables: the data block runs to hundreds of KiB (any buffering / chunking in a writer path shows
     # only here); the full predicate is evaluated by the driver on them as on every other case
     large = [(150, 90, 0.8, "int"), (120, 80, 0.5, "frac"), (170, 100, 1.0, "frac"), (130, 70, 0.9, "mixed")]
@@ -502,8 +629,8 @@ def run(ctx):
         run_case(ctx, t, "large \"tables\"", datetime.datetime(2021, 3, 4, 5, 6, 7), tags=("large", kind),
                  label="large:%dx%d:%s:%s" % (ln, lm, dens, kind))
         ctx.count("large-table")
-        ctx.count("large-data-KiB>=64" if t.nnz * 12 >= 65536 else "large-data-KiB<64")
-    n = 1500 if ctx.quick() else 15000
+        ctx.count("large-data-KiB>=64" if t.nnz * 16 >= 65536 else "large-data-KiB<64")
+    n = 1050 if ctx.quick() else 15000
     max_n = 6 if ctx.quick() else 9
     for k in range(n):
         spec = gen_spec(rng, max_n, max_n)
@@ -518,6 +645,17 @@ def run(ctx):
         g = gen_str(rng)
         d = gen_date(rng)
         r = run_case(ctx, t, g, d, tags=("random", route, op), label="random:%s:%s" % (route, op), want_text=True)
+        if r is not None and rng.random() < 0.3:
+            edit = rng.choice(INPLACE_EDITS)
+            try:
+                ok = apply_inplace_edit(rng, t, edit)
+            except Exception as e:  # noqa  (the edit itself is not this property's business)
+                ctx.count("edit-skipped:%s" % type(e).__name__)
+                ok = False
+            if ok:
+                run_case(ctx, t, gen_str(rng), gen_date(rng), tags=("random", "history", edit, route, op),
+                         label="history:%s:%s:%s" % (edit, route, op))
+                ctx.count("history=" + edit)
         ctx.count("route=" + route)
         ctx.count("prior=" + op)
         nz = sum(1 for row in spec["rows"] for v in row if v != 0.0)
